@@ -199,6 +199,28 @@ def run_case(case, ctx):
             c4.value = v
             judge("cell.value=", c4.value)
             judge("cell.value= reparsed", reparse(c4).get_value())
+    # ---- a display text next to the typed value never replaces the value ---------------
+    if kind not in ("none",):
+        with ctx.guard(("C06", "Cell-text", "exception", kind), case):
+            for disp in ("(display)", "0", ""):
+                ct = Cell(v, text=disp)
+                judge("Cell(v, text=).get_value", ct.get_value())
+                judge("Cell(v, text=).value", ct.value)
+                rt = Row()
+                rt.append_cell(ct)
+                judge("Cell(v, text=) Row.get_values", rt.get_values()[0])
+                judge("Cell(v, text=) Row.get_value", rt.get_value(0))
+                tt = Table("X")
+                tt.append_row(rt)
+                judge("Cell(v, text=) Table.get_values", tt.get_values()[0][0])
+                judge("Cell(v, text=) Table.get_value", tt.get_value((0, 0)))
+                judge("Cell(v, text=) Table.get_column_values", tt.get_column_values(0)[0])
+                judge("Cell(v, text=) reparsed", reparse(ct).get_value())
+                lexical(ctx, kind, v, odfread.parse_fragment(ct.serialize()), ("C06", "Cell-text"), case)
+                c5 = Cell()
+                c5.set_value(v, text=disp)
+                judge("Cell.set_value(v, text=)", c5.get_value())
+                judge("Cell.set_value(v, text=) reparsed", reparse(c5).get_value())
     # ---- Row / Table --------------------------------------------------------
     with ctx.guard(("C06", "Table", "exception", kind), case):
         r = Row()
